@@ -85,6 +85,9 @@ class Check:
     engine_opts = {}
     expected_events = ()  # event kinds that are part of the precondition (path excluded)
     violation_events = ()  # event kinds that are candidate violations
+    # exceptions of these types escaping the analysed API on a symbolic path are candidate violations ("call fails"); they are
+    # reported only if the concrete replay of a model of that path fails as well, otherwise they stay harness errors
+    api_exceptions = (ValueError, TypeError, IndexError, ZeroDivisionError, AttributeError, KeyError, ArithmeticError)
     witness_search = 40  # float inputs tried when a solver candidate does not reproduce after rounding
     witness_grid = [-2, -1, 0, 1, 2, 3, Fraction(1, 2), Fraction(-3, 2), Fraction(5, 4)]
     probe_events = ()  # event kinds ending the symbolic claim; one witness per such path is replayed concretely
@@ -229,11 +232,11 @@ def run_config(check, cfg, tier, idx):
             first[0] = False
             prof.start()
             try:
-                out = check.harness(c, cfg, P)
+                out = _guarded(check, c, cfg, P)
             finally:
                 prof.stop()
         else:
-            out = check.harness(c, cfg, P)
+            out = _guarded(check, c, cfg, P)
         return out
 
     try:
@@ -268,6 +271,27 @@ def run_config(check, cfg, tier, idx):
                     else:
                         res["errors"].append(f"unexpected event {k} {abort.info} cfg={res['cfg']}")
                 if P is None:
+                    continue
+                exc = getattr(P, "api_exception", None)
+                if exc is not None:
+                    mv = c.find_model(timeout_ms=4000)
+                    confirmed = False
+                    if isinstance(mv, dict):
+                        try:
+                            with _unpatched():
+                                oc, viol = check.concrete(cfg, mv)
+                            if viol:
+                                res["violations"].append({"clause": f"api-exception:{type(exc).__name__}", "detail": repr(exc)[:200], "values": _jsonable(mv), "trace": list(c.trace),
+                                                          "reproduced": _jsonable(viol), "signature": check.signature(cfg, "api-exception", mv, viol)})
+                                confirmed = True
+                        except check.api_exceptions as e2:
+                            res["violations"].append({"clause": f"api-exception:{type(exc).__name__}", "detail": repr(exc)[:200], "values": _jsonable(mv), "trace": list(c.trace),
+                                                      "reproduced": [["api-call-raises", repr(e2)[:200]]], "signature": f"{check.pid}/api-exception/{type(e2).__name__}"})
+                            confirmed = True
+                        except Exception:  # noqa
+                            pass
+                    if not confirmed:
+                        res["errors"].append("harness exception: " + P.api_trace)
                     continue
                 for cl, n in P.decided.items():
                     res["decided"][cl] = res["decided"].get(cl, 0) + n
@@ -340,6 +364,15 @@ def run_config(check, cfg, tier, idx):
     res["functions"] = prof.result()
     res["wall_s"] = round(time.time() - t0, 2)
     return res
+
+
+def _guarded(check, c, cfg, P):
+    try:
+        return check.harness(c, cfg, P)
+    except check.api_exceptions as e:
+        P.api_exception = e
+        P.api_trace = "".join(traceback.format_exception(type(e), e, e.__traceback__))[-1200:]
+        return None
 
 
 class _unpatched:
